@@ -29,7 +29,7 @@ def exclude(ctx, ob):
 def main(tier):
     ck = propcheck.Check('C03', tier)
     ck.replay_repeat = 400
-    N = 14 if tier == 'quick' else 17
+    N = 16 if tier == 'quick' else 18
     ck.assumptions += ['the Go runtime randomises every `range` over a map: each range statement gets its own symbolic permutation of the entries (all orders decided at once)',
                        'parseLine: printable ASCII line, one job per length; expandDefinitions: definition shapes enumerated (chains of depth 3 under several namings, diamond, independent + undefined, braces), all iteration orders of its three loops symbolic',
                        'OS-level nondeterminism (directory order) is C08; time/pid/random are not called on these paths (no such call appears in the encoded call trees)']
